@@ -10,12 +10,147 @@ RULE = ('1..4 probes with independent spike counts, id ranges with gaps and cura
         'on a grid of 6 instants so that ties inside and across probes are the norm, time dtypes '
         'uint64/int64/int32/uint32, id dtypes uint32/int32/int64, per-cluster TSVs in all / some / none of '
         'the probes; every spike carries a unique amplitude token so that its identity is observable '
-        'after the merge. One case = one real Merger.merge(). non-trivial = >= 2 probes')
+        'after the merge. One case = one real Merger.merge(), also run through the Lean file-system model of the '
+        'whole merge (which files appear in the output directory, their contents, nothing else touched); every '
+        'fourth case uses a Merger / process that has merged before (same object twice, write_spike_clusters twice, '
+        'another recording first). Advisory stream (never a verdict, agreement recorded under advisory:*): probes '
+        'without spikes / with one spike / without a required file, output directory = a probe directory. '
+        'non-trivial = >= 2 probes')
 ASSUMPTIONS = ['np.save/np.load, csv are transport', 'same dtype across probes (dtype mixing is outside the domain)']
 
 
 def impl(case):
-    return M.run_merge(case)
+    """One real merge. `again` (the state a Merger keeps must not leak into a later merge):
+    'same_object'  - the SAME Merger object merges twice, the files left by the second merge() are judged;
+    'write_twice'  - write_spike_clusters() runs twice inside one merge();
+    'after_other'  - another recording (`prelude`, other channel / template / spike counts) is merged first by
+                     another Merger in the same process.
+    In every mode the judged directory must equal what a fresh process writes, i.e. the model."""
+    mode = case.get('again')
+    if case.get('advisory'):
+        return run_merge_outcome(case)
+    if not mode:
+        return M.run_merge(case)
+    import phylib.io.merge as pm
+    from . import dataset as D
+    Real = pm.Merger
+    if mode == 'after_other':
+        with C.scratch_dir() as d:
+            subs = []
+            for k, spec in enumerate(case['prelude']):
+                D.write_dataset(d / ('pre%d' % k), spec)
+                subs.append(d / ('pre%d' % k))
+            Real(subs, d / 'merged').merge().close()
+        return M.run_merge(case)
+
+    class Again(Real):
+        if mode == 'same_object':
+            def merge(self):
+                Real.merge(self).close()
+                return Real.merge(self)
+        else:
+            def write_spike_clusters(self):
+                Real.write_spike_clusters(self)
+                Real.write_spike_clusters(self)
+    pm.Merger = Again
+    try:
+        return M.run_merge(case)
+    finally:
+        pm.Merger = Real
+
+
+def with_again(case, i, rng):
+    """every third case or so exercises a Merger / process that has merged before"""
+    mode = {3: 'same_object', 7: 'after_other', 11: 'write_twice'}.get(i % 12)
+    if mode:
+        case['again'] = mode
+        case['twice'] = False        # (the fresh second Merger of `twice` is the weaker form of these)
+        if mode == 'after_other':
+            case['prelude'] = M.merge_case(rng, nprobes=2 + i % 2)['probes']
+    return case
+
+
+# ----------------------------------------------------------------------------------------
+# advisory stream: merges OUTSIDE the quantifier (a probe without spikes / with one spike / without a required
+# file, the output directory being a probe directory). Never a verdict: the outcome of the real code (exception
+# class, files left in the output directory, probe directories touched) is compared with the Lean file-system
+# model and the agreement is recorded in the evidence.
+# ----------------------------------------------------------------------------------------
+
+ERR_CLASS = dict(notFound='FileNotFoundError', zeroDim='ValueError', emptyMax='ValueError', shape='AssertionError',
+                 noProbes='AssertionError')
+
+
+def run_merge_outcome(case):
+    from phylib.io.merge import Merger
+    from . import dataset as D
+    import numpy as np
+    with C.scratch_dir() as d:
+        names = probe_names(case)
+        subdirs = []
+        for k, spec in enumerate(case['probes']):
+            spec = dict(spec)
+            for mu in case.get('mutations', []):
+                if mu['probe'] == k and mu.get('spikes') is not None:
+                    for key in ('spike_samples', 'spike_templates', 'spike_clusters', 'amplitudes'):
+                        spec[key] = spec[key][:mu['spikes']]
+            D.write_dataset(d / names[k], spec)
+            for mu in case.get('mutations', []):
+                if mu['probe'] == k and 'delete' in mu and (d / names[k] / mu['delete']).exists():
+                    (d / names[k] / mu['delete']).unlink()
+            subdirs.append(d / names[k])
+        before = [M._hash_dir(sd) for sd in subdirs]
+        out = d / 'merged' if case.get('out_is_probe') is None else subdirs[case['out_is_probe']]
+        res = dict(raised=None)
+        try:
+            Merger(subdirs, out).merge().close()
+        except Exception as e:  # noqa
+            res['raised'] = type(e).__name__
+        after = [M._hash_dir(sd) for sd in subdirs]
+        res['out_files'] = sorted(p.name for p in out.iterdir()) if out.exists() else []
+        res['probes_unchanged'] = [a == b for a, b in zip(before, after)]
+    return res
+
+
+def advisory_cases(rng, n):
+    for i in range(n):
+        case = dict(p=PID, advisory=True, **M.merge_case(rng, nprobes=2 + i % 2))
+        case['twice'] = False
+        k = rng.randrange(len(case['probes']))
+        kind = ['no_spikes', 'one_spike', 'missing', 'aliased', 'missing'][i % 5]
+        case['advisory'] = kind
+        if kind == 'no_spikes':
+            case['mutations'] = [dict(probe=k, spikes=0)]
+            case['probes'][k]['text_files'] = {}
+        elif kind == 'one_spike':
+            case['mutations'] = [dict(probe=k, spikes=1)]
+            case['probes'][k]['text_files'] = {}
+        elif kind == 'missing':
+            case['mutations'] = [dict(probe=k, delete=rng.pick(
+                ['amplitudes.npy', 'spike_clusters.npy', 'templates.npy', 'channel_positions.npy', 'pc_feature_ind.npy',
+                 'template_feature_ind.npy', 'params.py', 'channel_map.npy']))]
+        else:
+            case['out_is_probe'] = k
+        yield case
+
+
+def advisory_note(case, impl_res, fsans):
+    """-> 'agree' | what differs (never a verdict)"""
+    if 'raised' in impl_res and 'ok' not in impl_res:
+        return 'harness error %s' % impl_res['raised']
+    r, fm = impl_res['ok'], fsans.get('ok')
+    if fm is None:
+        return 'driver error'
+    names = probe_names(case)
+    exp_raised = ERR_CLASS.get((fm['error'] or {}).get('kind'))
+    if r['raised'] != exp_raised:
+        return 'exception: real %s, model %s' % (r['raised'], fm['error'])
+    if sorted(fm['out_names']) != r['out_files']:
+        return 'files left in the output directory: real %s, model %s' % (r['out_files'], sorted(fm['out_names']))
+    alias = case.get('out_is_probe')
+    if any(not u for k, u in enumerate(r['probes_unchanged']) if k != alias) or not fm['others_untouched']:
+        return 'a probe directory other than the output directory was touched'
+    return 'agree'
 
 
 def _inputs(case):
@@ -24,9 +159,127 @@ def _inputs(case):
 
 
 def model_query(case, impl_res):
+    if case.get('advisory'):
+        return fs_query(case)
     t, sc, st = _inputs(case)
     return dict(p=PID, op='merge_spikes', times=t, clusters=sc, templates=st,
-                template_counts=[len(p['templates']) for p in case['probes']], mds=_mds(case)[0])
+                template_counts=[len(p['templates']) for p in case['probes']], mds=_mds(case)[0],
+                _second=fs_query(case))
+
+
+# ----------------------------------------------------------------------------------------
+# the merge as a function on a file system (Lean `C11.merge`, theorems inputs_untouched, merge_ok_*)
+# ----------------------------------------------------------------------------------------
+
+RATE_SCALE = 10000        # params.py sample_rate as an integer token
+
+
+def _ints(m):
+    return [[int(v) for v in row] for row in m]
+
+
+def probe_files(case, k):
+    """the files of probe directory k as the file-system model reads them: name -> {k: kind, v: value}"""
+    p = case['probes'][k]
+    for mu in case.get('mutations', []):
+        if mu['probe'] == k and mu.get('spikes') is not None:
+            p = dict(p)
+            for key in ('spike_samples', 'spike_templates', 'spike_clusters', 'amplitudes'):
+                p[key] = p[key][:mu['spikes']]
+    mds, _ = _mds(case)
+    f = {
+        'params.py': dict(k='params', v=[int(round(p['sample_rate'] * RATE_SCALE)), p['n_channels_dat']]),
+        'spike_times.npy': dict(k='ints', v=p['spike_samples']),
+        'amplitudes.npy': dict(k='ints', v=[int(round(2 * a)) for a in p['amplitudes']]),
+        'spike_templates.npy': dict(k='nats', v=p['spike_templates']),
+        'spike_clusters.npy': dict(k='nats', v=p['spike_clusters']),
+        'channel_map.npy': dict(k='nats', v=p['channel_map']),
+        'channel_positions.npy': dict(k='pos', v=[[int(x), int(y)] for x, y in p['channel_positions']]),
+        'templates.npy': dict(k='tmpl', v=[_ints(t) for t in p['templates']]),
+        'pc_feature_ind.npy': dict(k='table', v=p['pc_feature_ind']),
+        'template_feature_ind.npy': dict(k='table', v=p['template_feature_ind']),
+    }
+    for key, fn in (('whitening', 'whitening_mat.npy'), ('whitening_inv', 'whitening_mat_inv.npy'),
+                    ('similar_templates', 'similar_templates.npy')):
+        if p.get(key) is not None:
+            f[fn] = dict(k='mat', v=_ints(p[key]))
+    for fi, fn in enumerate(M.TSVS):
+        if mds[fi][k] is not None:
+            f[fn] = dict(k='tsv', v=mds[fi][k])
+    for mu in case.get('mutations', []):
+        if mu['probe'] != k:
+            continue
+        if 'delete' in mu:
+            f.pop(mu['delete'], None)
+    return f
+
+
+def probe_names(case):
+    return [M.probe_dir(case.get('dirnames', 'idx'), k) for k in range(len(case['probes']))]
+
+
+def fs_query(case):
+    names = probe_names(case)
+    fs = [dict(dir=names[k], name=n, file=f) for k in range(len(names)) for n, f in sorted(probe_files(case, k).items())]
+    out = 'merged' if case.get('out_is_probe') is None else names[case['out_is_probe']]
+    return dict(p=PID, op='merge_fs', fs=fs, subdirs=names, out=out)
+
+
+def _real_file(name, ok):
+    """the real merged file `name` in the value domain of the file-system model (None: not comparable)"""
+    key = name[:-4]
+    if name.endswith('.npy') and ok.get(key) is None:
+        return None
+    if name in ('spike_times.npy',):
+        return dict(k='ints', v=[int(x) for x in ok[key]['vals']])
+    if name == 'amplitudes.npy':
+        return dict(k='ints', v=[int(round(2 * x)) for x in ok[key]['vals']])
+    if name in ('spike_templates.npy', 'spike_clusters.npy', 'cluster_probes.npy', 'channel_map.npy', 'channel_probe.npy'):
+        return dict(k='nats', v=[int(x) for x in ok[key]['vals']])
+    if name in ('pc_feature_ind.npy', 'template_feature_ind.npy'):
+        return dict(k='table', v=_ints(ok[key]['vals']))
+    if name == 'channel_positions.npy':
+        return dict(k='pos', v=[[int(round(x)), int(round(y))] for x, y in ok[key]['vals']])
+    if name == 'templates.npy':
+        return dict(k='tmpl', v=[_ints(t) for t in ok[key]['vals']])
+    if name in ('similar_templates.npy', 'whitening_mat.npy', 'whitening_mat_inv.npy'):
+        return dict(k='mat', v=_ints(ok[key]['vals']))
+    if name == 'params.py':
+        return dict(k='params', v=[int(round(float(ok['params'].get('sample_rate')) * RATE_SCALE)), ok['params'].get('n_channels_dat')])
+    return None
+
+
+# the files each property talks about (a difference on a file of the other property is the other check's alarm)
+C11_FILES = ('spike_times.npy', 'amplitudes.npy', 'spike_templates.npy', 'spike_clusters.npy', 'cluster_probes.npy',
+             'probes.description.tsv') + tuple(M.TSVS)
+C12_FILES = ('params.py', 'channel_map.npy', 'channel_probe.npy', 'channel_positions.npy', 'templates.npy',
+             'pc_feature_ind.npy', 'template_feature_ind.npy', 'similar_templates.npy', 'whitening_mat.npy',
+             'whitening_mat_inv.npy')
+
+
+def fs_compare(case, ok, fsans, names):
+    """real merge vs the Lean file-system model (successful merge of an in-domain case): which files exist in the
+    output directory, the contents of the files in `names`, nothing else touched. -> verdict or None"""
+    if 'err' in fsans:
+        return 'MACHINERY: driver error %s' % fsans['err']
+    fm = fsans['ok']
+    if not fm['others_untouched']:
+        return 'MACHINERY: the file-system model changed a path outside the output directory (contradicts inputs_untouched)'
+    if fm['error'] is not None:
+        return 'CORR: the file-system model raises %s where the real merge succeeds' % fm['error']
+    for n in names:
+        if (n in fm['out_names']) != (n in ok['files']):
+            return 'CORR: %s is %s by the real merge and %s by the file-system model' % (
+                n, 'written' if n in ok['files'] else 'not written', 'written' if n in fm['out_names'] else 'not written')
+        mf = fm['out'].get(n)
+        if mf is None:
+            continue
+        if mf['k'] in ('computed_inv', 'labels', 'tsv'):
+            continue           # written by the loader (float inverse) / text files judged elsewhere: presence only
+        rf = _real_file(n, ok)
+        if rf != mf:
+            return 'CORR: %s differs from the file-system model: real %s, model %s' % (n, str(rf)[:200], str(mf)[:200])
+    return None
 
 
 def _parse_cell(v):
@@ -103,6 +356,8 @@ def oracle(case):
 
 
 def judge(case, impl_res, ans):
+    if case.get('advisory'):
+        return None          # outside the quantifier: recorded by tally(), never a verdict
     if 'err' in ans:
         return 'MACHINERY: driver error %s' % ans['err']
     m = ans['ok']
@@ -114,6 +369,9 @@ def judge(case, impl_res, ans):
         return 'SPEC: Merger.merge() raised %s (%s) at %s on an in-domain input' % (
             impl_res['raised'], impl_res['msg'], impl_res['where'])
     ok = impl_res['ok']
+    # each merged spike keeps its amplitude: the Lean origins (probe, index) of the merged spikes
+    if [P_amp(case, k, i) for k, i in m['origins']] != exp['amps']:
+        return 'MACHINERY: Lean mergedOrigins differ from the python oracle'
     if ok.get('second_merge_differs'):
         return 'SPEC: merging the same probes a second time in the same process gave different files: %s' % ok['second_merge_differs'][:4]
     if not all(ok['inputs_unchanged']):
@@ -143,14 +401,42 @@ def judge(case, impl_res, ans):
     if mm['spike_samples'] != exp['times'] or mm['spike_clusters'] != exp['clusters'] or \
             mm['spike_templates'] != exp['templates'] or mm['amplitudes'] != exp['amps']:
         return 'SPEC: the TemplateModel returned by merge() differs from the merged files'
-    return None
+    for fn in M.TSVS:
+        # the renumbered per-cluster metadata as the returned model shows it
+        if {k: v for k, v in mm['metadata'].get(fn[len('cluster_'):-4], {}).items()} != exp['tsv'].get(fn, {}):
+            return 'SPEC: metadata of the TemplateModel returned by merge() differs from the renumbered %s: %s vs %s' % (
+                fn, mm['metadata'].get(fn[len('cluster_'):-4]), exp['tsv'].get(fn))
+    if len(ok['cluster_probes']['vals']) != max(ok['spike_clusters']['vals']) + 1:
+        return 'SPEC: cluster_probes does not have one row per merged cluster id (theorem clusterProbes_length)'
+    # the merge as a function on directories (Lean C11.merge): files created, their contents, frame
+    tsv_model = {}
+    fm = (ans.get('second') or {}).get('ok')
+    if fm:
+        _, vals = _mds(case)
+        for fn in M.TSVS:
+            if fn in fm['out']:
+                tsv_model[fn] = {str(K): vals[tok] for K, tok in fm['out'][fn]['v']}
+        if tsv_model != exp['tsv']:
+            return 'MACHINERY: per-cluster files of the file-system model differ from mergeClusterData'
+    return fs_compare(case, ok, ans.get('second') or {'err': 'no answer'}, C11_FILES)
+
+
+def P_amp(case, k, i):
+    return case['probes'][k]['amplitudes'][i]
 
 
 def nontrivial(case):
-    return len(case['probes']) >= 2
+    return len(case['probes']) >= 2 and not case.get('advisory')
 
 
 def tally(rep, case, impl_res, ans):
+    if case.get('advisory'):
+        note = advisory_note(case, impl_res, ans)
+        rep.count('advisory:%s:%s' % (case['advisory'], 'agree' if note == 'agree' else 'DIFFERS'))
+        if note != 'agree':
+            rep.extra.setdefault('advisory_differences', []).append(dict(kind=case['advisory'], what=note[:300]))
+        return
+    rep.count('again:%s' % case.get('again', 'no'))
     rep.count('probe_dir_names:%s/%s' % (case.get('dirnames', 'idx'), case.get('dirkind', 'path')))
     rep.count('probes:%d' % len(case['probes']))
     t = [x for p in case['probes'] for x in p['spike_samples']]
@@ -166,6 +452,9 @@ def classify(case, impl_res, ans, why):
 
 
 def shrink(case):
+    if case.get('again') or case.get('twice'):
+        # first: does it fail on a fresh Merger in a fresh state too?
+        yield {k: v for k, v in case.items() if k not in ('again', 'prelude', 'twice')}
     P = case['probes']
     if len(P) > 1:
         for i in range(len(P)):
@@ -188,4 +477,5 @@ def shrink(case):
 def gen(tier, rng):
     q = tier == 'quick'
     for i in range(150 if q else 3000):
-        yield dict(p=PID, **M.merge_case(rng, nprobes=[1, 2, 3, 4][i % 4] if i < 40 else None))
+        yield with_again(dict(p=PID, **M.merge_case(rng, nprobes=[1, 2, 3, 4][i % 4] if i < 40 else None)), i, rng)
+    yield from advisory_cases(rng, 10 if q else 200)
